@@ -977,3 +977,10 @@ def _s(bit):
         if a[0] == "v":
             out.add((a[1], a[2]))
     return out
+
+
+def hmac_premises(ck, mod, rule, label="H/N0"):
+    """the HMAC layer as a premise of HKDF / PBKDF2: C12's rules re-run under the caller's rule id"""
+    def ob(cond, r_, fn, cons, ok, bad, where=None):
+        return ck.ob(cond, rule, fn, cons, ok, bad, where=where)
+    return check_hmac(ob, mod, label)
